@@ -171,6 +171,15 @@ _add("C13",
 _add("C15",
      note="round trips include whole blocks of genuine zeros beside a non-zero nodata, written window by window")
 
+_add("C19",
+     text="CRS.__eq__ / __ne__: equal iff same pyproj class for every state of the lazily cached EPSG codes, proved WITHOUT assuming that equal codes mean equal CRSs (an assumption real pyproj violates; the code path relying on it was a genuine defect and is repaired).")
+_add("C01",
+     note="the only assumption left about EPSG codes is that the code is a function of the pyproj CRS")
+_add("C17",
+     note="roi_shape's contract is stated from the index set (an empty selection has size 0), no longer from the code")
+_add("C04",
+     text="VariableSizedTiles.tile_shape for EVERY integer index (from the end when negative, IndexError exactly outside).")
+
 NA = {}
 ALL = [f"C{i:02d}" for i in range(1, 21)]
 
